@@ -131,7 +131,7 @@ func refreshWalk(r *Result, w interface{}, m *spec.Msg, sv reflect.Value, prev, 
 			}
 			if ok3 && pv != nil && !pv.IsNull() && !pv.IsUnknown() {
 				r.outcome("scalar-was-non-null")
-				if attrPayload(nv) != attrPayload(fv) {
+				if attrPayload(nv) != attrPayload(fv) && !(nv.IsNull() && fv.IsNull()) {
 					r.violate("stale-scalar", ch, fmt.Sprintf("attribute %s was non-null and now holds %s, the source renders %s", p, attrPayload(nv), attrPayload(fv)), w)
 				}
 			}
@@ -181,7 +181,7 @@ func (t *Target) sourceAlphabet(tier string, r *Result) []interface{} {
 	_ = n
 	if !capped {
 		Explore(-1, 0, func(ch *Chooser) { s, _ := t.buildSOpt(ch, BaseZero, sOpts{}); add(s) })
-		r.Bound = "source alphabet: full product"
+		r.Bound = "source alphabet: full product of the value domains"
 		return out
 	}
 	structural := func(p string) bool { return strings.Contains(p, "/") }
@@ -196,7 +196,8 @@ func (t *Target) sourceAlphabet(tier string, r *Result) []interface{} {
 			})
 		}
 	}
-	r.Bound = fmt.Sprintf("source alphabet: %d values within one deviation of the bases (structural positions first)", len(out))
+	r.Bound = fmt.Sprintf("source alphabet: up to %d values within one deviation of the bases (structural positions first)", limit)
+	r.outcome(fmt.Sprintf("alphabet-size-%d", len(out)/8*8))
 	return out
 }
 
@@ -239,9 +240,9 @@ func procC09(t *Target, tier string, r *Result) {
 			}
 		}
 	}
-	maxTransitions := 60000
+	maxTransitions := 400000
 	if tier == "thorough" {
-		maxTransitions = 600000
+		maxTransitions = 6000000
 	}
 	levelDone := 1
 	for level := 2; level <= depth && len(frontier) > 0; level++ {
@@ -299,7 +300,8 @@ func procC09(t *Target, tier string, r *Result) {
 	}
 	r.States += len(visited) / partN
 	r.Nontrivial += len(visited) / partN
-	r.Bound += fmt.Sprintf("; sequences of up to %d CopyTo calls (completed depth %d), states deduplicated on the canonical object", depth, levelDone)
+	r.Bound += fmt.Sprintf("; sequences of up to %d CopyTo calls, states deduplicated on the canonical object", depth)
+	r.outcome(fmt.Sprintf("completed-depth-%d", levelDone))
 }
 
 // idemShape names the first attribute path at which two objects differ.
